@@ -55,6 +55,7 @@ type Ctx struct {
 	Notes       []string
 	Extra       map[string]any
 	models      map[string]any
+	floorFails  []string
 }
 
 func NewCtx(p *core.Prog, prop, tier string) *Ctx {
@@ -103,7 +104,9 @@ func (c *Ctx) Check(key, rule string, pos token.Pos, ok bool, witness string) {
 func (c *Ctx) Floor(what string, got, want int) {
 	c.Notes = append(c.Notes, fmt.Sprintf("instances %s: %d (floor %d)", what, got, want))
 	if got < want {
-		fail("instance floor not met for %s: matched %d, confirmed by hand %d", what, got, want)
+		// deferred: if the run also finds violations they are reported (exit 1);
+		// otherwise the unmet floor ends the run as a checker error (exit 2)
+		c.floorFails = append(c.floorFails, fmt.Sprintf("instance floor not met for %s: matched %d, confirmed by hand %d", what, got, want))
 	}
 }
 
@@ -317,6 +320,9 @@ func (c *Ctx) Finish(verifDir string, seed int) int {
 		c.Prop, c.Tier, len(c.Obs), discharged, nknown, nviol, len(funcs), time.Since(c.Start).Seconds())
 	if nviol > 0 {
 		return 1
+	}
+	if len(c.floorFails) > 0 {
+		fail("%s", strings.Join(c.floorFails, "; "))
 	}
 	return 0
 }
